@@ -22,7 +22,7 @@ use octo_squirrel::manager::shadowsocks::ServerUser;
 use octo_squirrel::manager::shadowsocks::ServerUserManager;
 use octo_squirrel::protocol::address::Address;
 use octo_squirrel::protocol::shadowsocks::Mode;
-use octo_squirrel::protocol::shadowsocks::aead_2022::password_to_keys;
+use octo_squirrel::protocol::shadowsocks::aead_2022::config_password_to_keys;
 use rand::random;
 use tcp::PayloadCodec;
 use tcp::ServerContext;
@@ -85,7 +85,7 @@ async fn startup_udp<const N: usize>(config: &ServerConfig<SslConfig>, user_mana
         return Ok(());
     }
     if config.mode.enable_udp() {
-        let (key, identity_keys) = password_to_keys(&config.password).map_err(|e| anyhow!(e))?;
+        let (key, identity_keys) = config_password_to_keys(&config.password).map_err(|e| anyhow!(e))?;
         let context = Context::new(Mode::Server, Some(user_manager.clone()), &key, &identity_keys);
         let codec = udp::new_codec::<N>(config, context)?;
         let inbound = UdpSocket::bind(format!("{}:{}", config.host, config.port)).await?;
@@ -299,7 +299,7 @@ mod tcp {
         pub fn init(config: &ServerConfig<SslConfig>, user_manager: Arc<ServerUserManager<N>>) -> Result<Self> {
             let kind = config.cipher;
             let (key, identity_keys) = if kind.is_aead_2022() {
-                password_to_keys(&config.password).map_err(|e| anyhow!(e))?
+                config_password_to_keys(&config.password).map_err(|e| anyhow!(e))?
             } else {
                 let key = aead::openssl_bytes_to_key(config.password.as_bytes());
                 (key, Vec::with_capacity(0))
